@@ -80,10 +80,16 @@ def run_tasks(tasks, nproc=None, timeout=30, env_extra=None, progress=None):
                 i, t = q.get_nowait()
             except queue.Empty:
                 break
+            if t.get("fresh") and w is not None:
+                w.close()
+                w = None
             if w is None:
                 w = _Worker(env)
             r, st = w.run(t, t.get("timeout", timeout))
             if st != "ok":
+                w = None
+            elif t.get("fresh"):
+                w.close()
                 w = None
             out[i] = (t, r, st)
             with lock:
